@@ -30,7 +30,11 @@ EDGES_UNORDERED = {"dataframe", "hif_dict"}
 
 
 def site_of(case):
-    return CLASS_SITE[case["target"]] if case["f"] == "class" else SITE[case["f"]]
+    if case["f"] == "class":
+        return CLASS_SITE[case["target"]]
+    if case.get("via"):      # the constructor / the to_* converter it delegates to
+        return CLASS_SITE["dhg" if case["f"].startswith("dimembers") else (case.get("using") or "hg")]
+    return SITE[case["f"]]
 
 
 # ----------------------------------------------------------------------------- canonical forms for the comparison
@@ -59,7 +63,7 @@ def norm_rt(f, rt, kept):
     the edges kept by ID (first `kept`, in order) and the automatically created faces (as a set of member sets)"""
     rt = copy.deepcopy(rt)
     rt.pop("kept", None)
-    if f in NODES_UNORDERED:
+    if f in NODES_UNORDERED or (f == "dataframe" and rt["cls"] == "sc"):
         rt["nodes"] = sorted(rt["nodes"], key=idkey)
     rt["nattr"] = sorted(rt["nattr"], key=lambda p: idkey(p[0]))
     if rt["cls"] == "sc" and kept is not None:
@@ -68,7 +72,7 @@ def norm_rt(f, rt, kept):
         rt["face_ids"] = [e[0] for e in rest]
         rt["faces"] = sorted((e[1] for e in rest), key=lambda ms: [idkey(x) for x in ms])
         rt["kept"] = kept
-        if f == "hif_dict":
+        if f in ("hif_dict", "dataframe"):     # edge order follows the iteration order of Python sets
             rt["edges"] = sorted(rt["edges"], key=lambda e: idkey(e[0]))
     elif f in EDGES_UNORDERED:
         rt["edges"] = sorted(rt["edges"], key=lambda e: idkey(e[0]))
@@ -77,7 +81,7 @@ def norm_rt(f, rt, kept):
 
 
 def kept_of_case(case):
-    if case["f"] in ("class", "hif_dict"):
+    if case["f"] in ("class", "hif_dict", "dataframe"):
         return len(L.kept_for_sc(case["net"]["edges"]))
     return None
 
@@ -129,9 +133,18 @@ def request_of(case):
     if case.get("directed_undocumented"):
         return None
     opt = case.get("opt")
+    f = case["f"]
+    if f.startswith("dimembers"):
+        return None
+    if f == "dataframe" and case.get("using") == "sc":
+        return {"f": "dataframe_sc", "net": case["net"]}     # every route reads the same rows
+    if case.get("via"):
+        # another public route to the same reader: the model's answer for the from_* function / the constructor
+        if case.get("using") == "sc":
+            return None
+        return {k: v for k, v in case.items() if k not in ("via", "using")}
     if not opt:
         return case
-    f = case["f"]
     plain = {k: v for k, v in case.items() if k != "opt"}
     if f == "hypergraph_dict" and "max_order" in opt:
         a = case["net"]
@@ -375,7 +388,12 @@ def run(ctx):
                 "floats, bools, lists and dicts) x every converter pair (hyperedge list/dict, bipartite edge list, labelled and unlabelled "
                 "incidence matrix sparse/dense, bipartite graph with index maps, dataframe, hypergraph dict, HIF dict, the three class "
                 "constructors) x an option axis (max_order, one label list only, index=False, dual=True, column names / positions / "
-                "exchanged columns, create_using, nodetype/edgetype casts that really change the IDs: digit strings -> int, int -> str), "
+                "exchanged columns, create_using, nodetype/edgetype casts that really change the IDs: digit strings -> int, int -> str; "
+                "the other public routes from a representation or a network to a network: the class constructor Cls(rep), the converters "
+                "it delegates to called directly - xgi.to_hypergraph / to_dihypergraph / to_simplicial_complex(rep) - also with "
+                "create_using = the class / an instance holding a stale node and a stale attribute; a simplicial complex read back "
+                "into a simplicial complex from its hyperedge list / dict / dataframe; the directed hyperedge dict / list "
+                "DiEdgeView.dimembers() read back by DiHypergraph(...) / to_dihypergraph), "
                 "a DiHypergraph given to every converter (also those documented for undirected input: outcome classified and recorded), "
                 "plus hand-built networkx graphs in random vertex/edge insertion orders and (node,edge)/(edge,node) orientations incl. "
                 "invalid ones; non-trivial = distinct case whose network has an edge with >=2 members")
@@ -413,6 +431,13 @@ def run(ctx):
         "(compared with the model's default answer); one label list, dual=True, exchanged columns, create_using, HIF casts are decided by "
         "the predicate only (coverage.distribution 'predicate_only'); from_bipartite_graph(dual=True) on a DiGraph raises AttributeError "
         "(DiHypergraph has no dual()) and is not generated",
+        "routes: a converter called through the class constructor, through xgi.to_hypergraph / to_dihypergraph / to_simplicial_complex "
+        "directly, or with create_using = class / instance must give what the from_* function gives (same predicate, same model answer); "
+        "a documented 'Returns: Hypergraph object' that is None is the failure class converter-returns-none; an instance given as "
+        "create_using must be cleared, populated and (when something is returned) be the object returned (create-using).  A simplicial "
+        "complex sent through the two-column dataframe and read back with create_using=SimplicialComplex keeps its simplices (incidence) "
+        "and - the dataframe carries them - their IDs (edge-labels; model request dataframe_sc, theorem dataframe_rt_sc).  The directed "
+        "hyperedge dict / list (DiEdgeView.dimembers) is predicate-only",
         "the bipartite-graph / dataframe / edge-list / matrix round trips are judged on incidences (and labels or positions) only: these "
         "representations cannot carry empty edges or, for some, isolated nodes; the statement asks those of the two dicts only",
         "node order / edge order are compared only where they do not depend on Python set iteration order",
